@@ -69,6 +69,8 @@ function runHistory (rng, tag) {
   const localProgs = rng.sample(progs, rng.range(2, 5))
   for (const pair of [['edit-minus', 'edit-plus']]) { const has = pair.filter(k => localProgs.some(p => p[0] === k)); if (has.length === 1) localProgs.push(progs.find(p => p[0] === pair.find(k => k !== has[0]))) }
   const localCfgs = rng.sample(CONFIGS, rng.range(1, 3))
+  // (a configuration with renamed hooks and literals off meets the program that only calls methods)
+  if (localCfgs.some(c => c[0] === 'RENAMED-NO-LITERALS') && !localProgs.some(p => p[0] === 'methods-only')) localProgs.push(progs.find(p => p[0] === 'methods-only'))
   for (let step = 0; step < len; step++) {
     const [kind, code] = rng.pick(localProgs)
     const [cfgName, config] = rng.pick(localCfgs)
@@ -84,6 +86,10 @@ function runHistory (rng, tag) {
     const k = c.cfgName + '\u0000' + c.rewriter + '\u0000' + c.file + '\u0000' + c.code
     if (!memo.has(k)) { const fresh = P.loadPackage(); memo.set(k, callOnce(fresh[c.rewriter], c.config, c.code, c.file)) }
     c.fresh = memo.get(k)
+    // and what the native rewriter itself answers to (config, code, file), without any package code in between
+    const kn = 'native\u0000' + c.cfgName + '\u0000' + c.file + '\u0000' + c.code
+    if (!memo.has(kn)) { let nat; try { nat = new P.ShimRewriter(c.config).rewrite(c.code, c.file) } catch (e) { nat = { error: String(e && e.message) } } memo.set(kn, nat) }
+    c.native = memo.get(kn)
   }
   return { calls }
 }
